@@ -462,6 +462,8 @@ def replay_batch(a):
                 if rc != (19 if any_fail else 0):
                     out.append({"order": [order_r, order_d], "problem": f"exit code {rc}"})
                 for pos, di in enumerate(order_d):
+                    if os.path.basename(rep[pos].get("name", "")) != f"d{di}.json":
+                        out.append({"order": [order_r, order_d], "document": di, "problem": "report carries another document's name: " + str(rep[pos].get("name"))})
                     got = norm(rep[pos])
                     exp = {"compliant": sorted(set(sum((singles[(di, ri)]["compliant"] for ri in order_r), []))),
                            "not_applicable": sorted(set(sum((singles[(di, ri)]["not_applicable"] for ri in order_r), []))),
